@@ -121,6 +121,7 @@ func c10Shard(t Tier, shard, nshards int) (run *report.Run) {
 	dl := deadline(t, 100*time.Second, 20*time.Minute)
 	cases := buildShard(e, maxLen, shard, nshards)
 	cases = append(cases, upgradeCases(e, shard, nshards)...) // histories containing an in-process software upgrade
+	cases = append(cases, longCases(e, shard, nshards)...)
 	var mu sync.Mutex
 	evals, nontrivial := 0, 0
 	capHit := false
@@ -192,6 +193,9 @@ func c10Shard(t Tier, shard, nshards int) (run *report.Run) {
 		n := abciCalls(c.hist)
 		first := 3 + len(c.hist.Blocks[0]) - 1
 		for stop := first; stop < n; stop++ {
+			if c.long && stop%9 != 0 { // long histories: every 9th stop point as a real process kill (all of them in-process above)
+				continue
+			}
 			pwg.Add(1)
 			psem <- struct{}{}
 			func(c *histCase, stop int) {
